@@ -407,3 +407,24 @@ mod tests {
         assert!(member(&g, &s));
     }
 }
+
+#[cfg(test)]
+mod tests2 {
+    use super::*;
+    #[test]
+    fn nonproductive_detected() {
+        let g = Grammar::new(
+            "S",
+            vec![
+                Prod { lhs: "S".into(), alts: vec![vec![Factor::t("."), Factor::n("A")]] },
+                Prod { lhs: "A".into(), alts: vec![vec![Factor::t("a"), Factor::Group(vec![vec![Factor::n("C")]]), Factor::n("S")]] },
+                Prod { lhs: "C".into(), alts: vec![vec![Factor::t("x")]] },
+            ],
+        );
+        let ig = IGrammar::from(&g);
+        let h = min_heights(&ig);
+        assert_eq!(h[0], usize::MAX);
+        assert_eq!(h[1], usize::MAX);
+        assert_eq!(h[2], 1);
+    }
+}
